@@ -1198,3 +1198,80 @@ theorem dep_parse_err_classified_simplifier (s : String) (e : PyErr) (h : create
   · exact .inr (.inr (.inr (.inr (.inr (.inr h)))))
 
 end Poetry.C19
+
+/-! # Part IX — the public entry points (with the `RecursionError` guards of repo commit 9ad3a46)
+
+`parse_marker` converts a `RecursionError` of `_compact_markers` into `InvalidMarkerError` (`parseMarkerTop`),
+`Requirement.__init__` converts one from anywhere in its body into `InvalidRequirementError` (`Req.parseTop`), and
+`create_from_pep_508` uses that constructor (`createFromPep508Top`; its own tail — the `marker` setter — is not
+guarded in the code).  Hence `recursion` disappears from the marker and requirement statements. -/
+
+namespace Poetry.C19
+open Poetry Version VParser Marker Dep ParserTotal
+
+theorem parseMarkerTop_err (s : String) (e : PyErr) (h : parseMarkerTop s = .error e) :
+    (parseMarker s = .error e ∧ e ≠ .recursion) ∨ (parseMarker s = .error .recursion ∧ e = .value) := by
+  unfold parseMarkerTop at h
+  cases hp : parseMarker s with
+  | ok m => simp [hp] at h
+  | error e' => cases e' <;> simp [hp] at h <;> subst h <;> simp
+
+/-- **`parse_marker(text)`, public function, for every string**: the grammar's syntax error, `InvalidMarkerError`, the
+model's own `unmodelled` / `fuel`, or the named residue. -/
+theorem parse_marker_top_err_classified (s : String) (e : PyErr) (h : parseMarkerTop s = .error e) :
+    e = .syntax ∨ e = .value ∨ e = .unmodelled ∨ e = .fuel ∨ simplifier_residue e := by
+  rcases parseMarkerTop_err s e h with ⟨hp, hne⟩ | ⟨_, hv⟩
+  · rcases parse_marker_err_classified_unconditional s e hp with h | h | h | h | h | h
+    · exact .inl h
+    · exact .inr (.inl h)
+    · exact .inr (.inr (.inl h))
+    · exact .inr (.inr (.inr (.inl h)))
+    · exact absurd h hne
+    · exact .inr (.inr (.inr (.inr h)))
+  · exact .inr (.inl hv)
+
+/-- **`Requirement(text)`, public constructor, for every string** -/
+theorem req_parse_top_err_classified (s : String) (e : PyErr) (h : Req.parseTop s = .error e) :
+    e = .value ∨ e = .unmodelled ∨ e = .fuel ∨ e = .syntax ∨ simplifier_residue e := by
+  rcases Req.guardRecursion_err _ e h with ⟨hp, hne⟩ | ⟨_, hv⟩
+  · rcases req_parse_err_classified_unconditional s e hp with h | h | h | h | h | h
+    · exact .inl h
+    · exact .inr (.inl h)
+    · exact .inr (.inr (.inl h))
+    · exact absurd h hne
+    · exact .inr (.inr (.inr (.inl h)))
+    · exact .inr (.inr (.inr (.inr h)))
+  · exact .inl hv
+
+/-- an error of the guarded dependency parser is an error of the guarded requirement parser or of `fromReq` on a
+parsed requirement -/
+theorem createFromPep508Top_err (s : String) (e : PyErr) (h : createFromPep508Top s = .error e) :
+    Req.parseLTop (stripComment s.toList) = .error e ∨
+    ∃ req, Req.parseL (stripComment s.toList) = .ok req ∧ fromReq req = .error e := by
+  unfold createFromPep508Top createFromPep508LTop at h
+  cases hp : Req.parseLTop (stripComment s.toList) with
+  | error e' => simp [hp, bind, Except.bind] at h; subst h; exact .inl rfl
+  | ok req =>
+    simp [hp, bind, Except.bind] at h
+    exact .inr ⟨req, (Req.guardRecursion_ok_iff _ req).1 hp, h⟩
+
+/-- **`Dependency.create_from_pep_508(text)`, public function, for every string**: `recursion` can only come from the
+un-guarded tail (`convert_markers` in the `marker` setter), not from the requirement parser. -/
+theorem dep_parse_top_err_classified (s : String) (e : PyErr) (h : createFromPep508Top s = .error e) :
+    e = .value ∨ e = .unmodelled ∨ e = .fuel ∨ e = .syntax ∨ simplifier_residue e ∨
+    (∃ req, Req.parseL (stripComment s.toList) = .ok req ∧ fromReq req = .error e) := by
+  rcases createFromPep508Top_err s e h with h | h
+  · have h' : Req.parseTop (String.ofList (stripComment s.toList)) = .error e := by
+      simpa [Req.parseTop] using h
+    rcases req_parse_top_err_classified _ e h' with h | h | h | h | h
+    · exact .inl h
+    · exact .inr (.inl h)
+    · exact .inr (.inr (.inl h))
+    · exact .inr (.inr (.inr (.inl h)))
+    · exact .inr (.inr (.inr (.inr (.inl h))))
+  · exact .inr (.inr (.inr (.inr (.inr h))))
+
+example : parseMarkerTop "" = .ok .any := rfl
+example : Req.parseTop "foo @" = .error .value := rfl
+
+end Poetry.C19
